@@ -21,7 +21,7 @@ def full_device_jobs(rng, n, extra=(), maximages="1500"):
         jobs.append(("full%d" % i, ["--seed", str(rng.randrange(1 << 30)), "--steps", "60", "--fmt", str([3, 3, 2, 1][i % 4]),
                                     "--blocks", str(rng.choice([21, 22, 23, 24, 26])), "--cpus", str(rng.choice([2, 4])),
                                     "--keys", str(rng.choice([2, 3, 4])), "--ttl", "1", "--end", "drop", "--flushpct", "25",
-                                    "--maximages", maximages] + list(extra)))
+                                    "--maximages", maximages] + (["--edges", "60"] if i % 4 == 3 else []) + list(extra)))
     return jobs
 
 
